@@ -176,7 +176,10 @@ def main():
                     h.sample({"stage": stage, "workers": par, "fail_at": str(fa), "outcome": f"{kind}: {detail}"})
             # real processes
             for par in ((2, 4) if h.deep else (3,)):
-                kind, detail = real_run(stage, par, fails[3] if stage == "walk" else fails[1])
+                # with real processes the arrival counter is per worker process, so an item chosen by arrival index may
+                # never fail; choose the failing item by its label (position / image name), which every process agrees on
+                real_fail = fails[3] if stage == "walk" else next(f for f in fails if isinstance(f, (tuple, str)) and f != "all")
+                kind, detail = real_run(stage, par, real_fail)
                 h.case(("real", stage, par))
                 h.count("real", f"{stage}:{kind}")
                 if kind != "raised":
